@@ -103,6 +103,14 @@ def specIdOfBytes (b : Bytes) (strict : Bool) (k : Nat) : String :=
     else if bd.version ≠ 1 ∧ !bd.hasRct then "-"
     else s!"ok {Hex.encode (idFromBytes b' bd.version bd.p bd.q bd.isNull)} {Hex.encode (K (b'.take bd.p))}{if strict then "" else s!" {e}"}"
 
+/-- model and spec answers for an embedded parse of `b`: identifier, prefix hash, bytes consumed -/
+def partialId (b : Bytes) : String × String :=
+  match tx b with
+  | some (t, r) =>
+    let k := b.length - r.length
+    (s!"ok {Hex.encode (txHash K t)} {Hex.encode (prefixHash K t.pre)} {k}", specIdOfBytes b false k)
+  | none => ("err", "-")
+
 def showTx (bytes : Bytes) (reparse : Bool) (id : Option Bytes) (ph : Bytes) : String :=
   s!"{Hex.encode bytes} {if reparse then "eq" else "ne"} {match id with | some i => Hex.encode i | none => "na"} {Hex.encode ph}"
 end C03
@@ -142,13 +150,9 @@ def stepC03 : Step
       let s := specIdOfBytes b true b.length
       some (m, if s == s0 then s else s!"{s} | model-boundaries: {s0}")
     | _ => some ("err", "-")
-  | ["c05_txid_partial", h] =>
-    let b := Hex.decode h
-    match tx b with
-    | some (t, r) =>
-      let k := b.length - r.length
-      some (s!"ok {Hex.encode (txHash K t)} {Hex.encode (prefixHash K t.pre)} {k}", specIdOfBytes b false k)
-    | none => some ("err", "-")
+  | ["c05_txid_partial", h] => some (partialId (Hex.decode h))
+  -- the same question asked of the library through a short-reading reader (one byte per `read` call): same answers expected
+  | ["c05_txid_chunked", h] => some (partialId (Hex.decode h))
   | "c03_enc" :: rest =>
     match txD rest with
     | some (d, []) =>
